@@ -342,16 +342,16 @@ Proof. intros [] r u. reflexivity. Qed.
 
 (* a KO document built from a KeyObjectSelection, written and parsed with
    KeyObjectSelectionDocument.from_dataset, is the document that was written *)
-Lemma ko_roundtrip : forall ev ts title descr refs root d,
-  ko_content title descr refs = Ok root -> ko_init ev ts root = Ok d ->
+Lemma ko_roundtrip : forall ev ts title tx descr refs root d,
+  ko_content title tx descr refs = Ok root -> ko_init ev ts root = Ok d ->
   ko_from_dataset true d = Ok d.
 Proof.
-  intros ev ts title descr refs root d HC HI.
+  intros ev ts title tx descr refs root d HC HI.
   destruct (ko_init_inv _ _ _ _ HI) as [_ [_ [ER [_ [ECl [oth [st [sers [_ ED]]]]]]]]].
   apply ko_from_dataset_iff.
   unfold ko_content in HC. destruct refs as [|r0 refs]; [discriminate|]. inversion HC as [HR]. clear HC.
   assert (RR : reroot (d_content d) = d_content d).
-  { rewrite ER, <- HR. reflexivity. }
+  { rewrite ER, <- HR. destruct tx; reflexivity. }
   rewrite RR, set_content_same. rewrite ER, <- HR. cbn [i_vt i_attrs attr_get k_template Z.eqb].
   repeat split; try assumption; [exists []; reflexivity|]. rewrite ED. discriminate.
 Qed.
@@ -367,8 +367,8 @@ Proof.
   apply IH. intros y Hy. apply H. now right.
 Qed.
 
-Lemma ko_references_listed : forall title descr refs root,
-  ko_content title descr refs = Ok root ->
+Lemma ko_references_listed : forall title tx descr refs root,
+  ko_content title tx descr refs = Ok root ->
   ko_get_references None None root = Ok (map ko_ref_item refs) /\
   (forall cf, ko_get_references None cf root = Ok (filter (cls_ok cf) (map ko_ref_item refs))) /\
   (forall t cf, ref_vt t = true ->
@@ -376,7 +376,7 @@ Lemma ko_references_listed : forall title descr refs root,
      Ok (filter (fun it => vt_eqb (i_vt it) t && cls_ok cf it) (map ko_ref_item refs))) /\
   (forall t cf, ref_vt t = false -> ko_get_references (Some t) cf root = Err "ValueError").
 Proof.
-  intros title descr refs root HC. unfold ko_content in HC.
+  intros title tx descr refs root HC. unfold ko_content in HC.
   destruct refs as [|r0 refs]; [discriminate|]. inversion HC as [HR]. clear HC.
   set (D := match descr with Some _ => [Item TEXT 113012 1 None [] []] | None => [] end).
   assert (HD : forall (p : item -> bool), (forall x, In x D -> p x = false) ->
@@ -408,7 +408,7 @@ Proof. intros u c []; repeat split. Qed.
 
 Definition ko_ex_ev : list evd := [Evd 3 0 1 11; Evd 1 0 1 11; Evd 2 1 1 12; Evd 1 0 1 11].
 Lemma ko_example :
-  exists root d, ko_content 113000 (Some 2) [(1, 0, true); (2, 1, false); (1, 0, true)] = Ok root /\
+  exists root d, ko_content 113000 [4; 5; 17010] (Some 2) [(1, 0, true); (2, 1, false); (1, 0, true)] = Ok root /\
     ko_init ko_ex_ev true root = Ok d /\ ko_from_dataset true d = Ok d /\
     d_current d = [(1, [(11, [(1, 0)]); (12, [(2, 1)])])] /\
     resolve_reference d 2 = Ok (1, 12, 2) /\ resolve_reference d 3 = Err "ValueError" /\
@@ -637,3 +637,75 @@ Lemma verification_example :
   exists d, sr_init Comprehensive3D (ver_args (Some 8) (Extras (Some 3) (Some 4) None (Some [9]))) = Ok d /\
     d_observer d = Some (7, 8) /\ d_extras d = Recorded (Some 3) (Some 4) (Some []) (Some [9]).
 Proof. repeat split. eexists. split; [vm_compute; reflexivity|]. split; reflexivity. Qed.
+
+(* ==== coded entries (session 6) ==============================================================
+   A coded entry (concept name of an item, value of a CODE item, unit / qualifier of a NUM item)
+   may carry more than code value, scheme designator and meaning: the long / URN form of the value,
+   a scheme version, the context group identification and extension, the mapping resource,
+   equivalent codes.  The model carries them as optional attributes 14 (name), 15 (CODE value),
+   16 (NUM unit), 17 (NUM qualifier) of the item.  They are content like everything else: the
+   document holds them as given, and a parsed document exposes them - those of every descendant
+   because descendants are carried over whole, the one of the ROOT's concept name because
+   _SR.from_dataset copies the whole ConceptNameCodeSequence (key 14 is a root key). *)
+Definition entry_view (k : Z) (it : item) : Z * option (list Z) := (i_tag it, attr_get k (i_attrs it)).
+
+Lemma coded_entries_kept : forall c a d root, sr_init c a = Ok d -> single_root (a_content a) = Some root ->
+  d_content d = root /\
+  exists d', srread d = Ok (c, d') /\
+    entry_view k_name_entry (d_content d') = entry_view k_name_entry root /\
+    descendants (d_content d') = descendants root /\
+    (forall k, map (entry_view k) (descendants (d_content d')) = map (entry_view k) (descendants root)) /\
+    ((forall kv, In kv (i_attrs root) -> root_key (fst kv) = true) -> i_ref root = None ->
+     d' = d /\ d_content d' = root).
+Proof.
+  intros c a d root H HR.
+  destruct (parsed_tree _ _ _ _ H HR) as [d' [S [D [_ [T [_ [K [_ E]]]]]]]].
+  pose proof (tree_copied _ _ _ H) as HT. rewrite HR in HT. inversion HT as [E0].
+  split; [reflexivity|]. exists d'. split; [exact S|]. rewrite <- E0 in *.
+  split; [unfold entry_view; rewrite T, (K k_name_entry eq_refl); reflexivity|].
+  split; [exact D|]. split; [intros k; now rewrite D|].
+  intros HA HN. apply E. split; assumption.
+Qed.
+
+(* the same for every from_dataset (any target class, any dataset that is accepted) *)
+Lemma coded_entries_from_dataset : forall target has_cs d d', sr_from_dataset target has_cs d = Ok d' ->
+  entry_view k_name_entry (d_content d') = entry_view k_name_entry (d_content d) /\
+  descendants (d_content d') = descendants (d_content d).
+Proof.
+  intros target has_cs d d' H. destruct (from_dataset_spec _ _ _ _ H) as [-> _].
+  destruct (reroot_keeps (d_content d)) as [_ [K2 [_ [K4 [K5 _]]]]].
+  replace (d_content (set_content d (reroot (d_content d)))) with (reroot (d_content d)) by (destruct d; reflexivity).
+  split; [unfold entry_view; rewrite K2, (K5 k_name_entry eq_refl); reflexivity|exact K4].
+Qed.
+
+(* a key object document: the coded entry given as document title is in the document and in the
+   parsed document *)
+Lemma ko_title_entry : forall ev ts title tx descr refs root d,
+  ko_content title tx descr refs = Ok root -> ko_init ev ts root = Ok d ->
+  i_tag (d_content d) = title /\
+  attr_get k_name_entry (i_attrs (d_content d)) = (match tx with [] => None | _ => Some tx end) /\
+  ko_from_dataset true d = Ok d.
+Proof.
+  intros ev ts title tx descr refs root d HC HI. pose proof (ko_roundtrip _ _ _ _ _ _ _ _ HC HI) as R.
+  destruct (ko_init_inv _ _ _ _ HI) as [_ [_ [ER _]]]. rewrite ER.
+  unfold ko_content in HC. destruct refs as [|r0 refs]; [discriminate|]. inversion HC as [HR].
+  cbn [i_tag i_attrs]. repeat split; [|exact R]. destruct tx; reflexivity.
+Qed.
+
+(* non-vacuity: context group identification on the root's name (14), on a CODE value at depth 2
+   (15), long-form name + versioned unit + qualifier with an equivalent code on a NUM item at
+   depth 3 (14, 16, 17): accepted, and the parsed document IS the document written *)
+Definition entry_tree : item :=
+  Item CONTAINER 1 0 None [(1, [2000]); (14, [4; 5; 17021; 27021])]
+    [Item CONTAINER 2 1 None []
+       [Item CODE 3 1 None [(15, [4; 5; 6; 8; 9; 17150])]
+          [Item NUM 4 2 None [(3, [114006]); (14, [2]); (16, [12]); (17, [41; 50007])] []]];
+     Item IMAGE 5 1 (Some (1, 0)) [(14, [3; 11])] []].
+Lemma entry_example :
+  exists d, sr_init Comprehensive
+              (Args [Evd 1 0 1 11] (CDataset entry_tree) true true false false false None None None true no_extras) = Ok d /\
+    d_content d = entry_tree /\ srread d = Ok (Comprehensive, d) /\
+    map (entry_view k_qualifier_entry) (descendants (d_content d)) =
+      [(2, None); (3, None); (4, Some [41; 50007]); (5, None)] /\
+    entry_view k_name_entry (d_content d) = (1, Some [4; 5; 17021; 27021]).
+Proof. eexists. split; [vm_compute; reflexivity|]. repeat split. Qed.
